@@ -8,9 +8,14 @@ observation (`Len, IsEmpty, Front, Peek k` for every integer `k`, `Each`
 stopped anywhere, `Slice`), and **every growth policy of `append`** (each
 growing call carries its own arbitrary `extra`), the ring-buffer model returns
 exactly what the list deque returns.
+
+`C07_current`: every guard, wrap test and index expression of the model is a
+definition of `Gen.Queue`, regenerated from queue/queue.go on every run by
+`extract/queue.go`; the theorem pins each of them to the expression the proofs
+are about and stops compiling when queue.go changes in one of them.
 -/
 namespace MdsVerif.Props.C07
-open MdsVerif.Model.Queue MdsVerif.Spec MdsVerif.Proofs.Queue
+open MdsVerif MdsVerif.Model.Queue MdsVerif.Spec MdsVerif.Proofs.Queue
 variable {α : Type} [Inhabited α]
 
 /-- one-step refinement: results agree, the abstraction commutes, the invariant is kept -/
@@ -38,7 +43,7 @@ theorem step_refines (q : Q α) (op : Op α) (hw : WF q) :
   | len => simp [step, Deque.step, Q.len, hw]
   | isEmpty =>
     refine ⟨?_, hw⟩
-    simp only [step, Deque.step, Q.isEmpty, Prod.mk.injEq, true_and, Out.bool.injEq]
+    simp only [step, Deque.step, isEmpty_def, Prod.mk.injEq, true_and, Out.bool.injEq]
     rw [Bool.eq_iff_iff]; simp [← List.length_eq_zero_iff]
   | slice => simp [step, Deque.step, slice_abs q hw, hw]
 
@@ -75,6 +80,59 @@ theorem C07_contents (q : Q α) (hw : WF q) (ops : List (Op α)) :
     have := ih _ h2
     simp only [List.foldl_cons, h1] at this ⊢
     exact this
+
+/-- **C07_current.**  The facts regenerated from `queue/queue.go` (`Gen.Queue`: every guard, wrap test
+and index expression of `Add, Push, Pop, PopLast, Peek, Front, Each, Slice, IsEmpty`, the rotation amount and
+its guard) are the pinned ones, and the extractor recognised the statement skeleton of every method.  The
+model `Model.Queue` is built from exactly these definitions, so `C07_history` is a theorem about the
+expressions that are in the source now; a one-token change in any of them changes `Gen/Queue.lean` and this
+theorem (and the `*_def` lemmas of `Proofs.Queue`) no longer compile. -/
+theorem C07_current :
+    Gen.Queue.recognised = true ∧
+    -- Add
+    (∀ n cap, Gen.Queue.addHasRoom n cap = decide (n < cap)) ∧
+    (∀ head n, Gen.Queue.addPos head n = head + n) ∧
+    (∀ pos cap, Gen.Queue.addWraps pos cap = decide (pos ≥ cap)) ∧
+    (∀ pos cap, Gen.Queue.addWrapped pos cap = pos - cap) ∧
+    (∀ head, Gen.Queue.addRotates head = decide (head > 0)) ∧
+    (∀ head, Gen.Queue.addRotateBy head = -head) ∧
+    -- Push
+    (∀ n cap, Gen.Queue.pushHasRoom n cap = decide (n < cap)) ∧
+    (∀ head, Gen.Queue.pushPos head = head - 1) ∧
+    (∀ pos, Gen.Queue.pushWraps pos = decide (pos < 0)) ∧
+    (∀ cap, Gen.Queue.pushWrapped cap = cap - 1) ∧
+    (∀ head, Gen.Queue.pushRotates head = decide (head > 0)) ∧
+    (∀ head, Gen.Queue.pushRotateBy head = -head) ∧
+    (∀ cap, Gen.Queue.pushGrowHead cap = cap - 1) ∧
+    -- Pop
+    (∀ n, Gen.Queue.popEmpty n = decide (n = 0)) ∧
+    (∀ n, Gen.Queue.popResets n = decide (n = 0)) ∧
+    Gen.Queue.popResetHead = 0 ∧
+    (∀ head cap, Gen.Queue.popHead head cap = (head + 1) % cap) ∧
+    -- PopLast
+    (∀ n, Gen.Queue.popLastEmpty n = decide (n = 0)) ∧
+    (∀ head n, Gen.Queue.popLastPos head n = head + n - 1) ∧
+    (∀ pos cap, Gen.Queue.popLastWraps pos cap = decide (pos ≥ cap)) ∧
+    (∀ pos cap, Gen.Queue.popLastWrapped pos cap = pos - cap) ∧
+    (∀ n, Gen.Queue.popLastResets n = decide (n = 0)) ∧
+    Gen.Queue.popLastResetHead = 0 ∧
+    -- Peek
+    (∀ k, Gen.Queue.peekNeg k = decide (k < 0)) ∧
+    (∀ k n, Gen.Queue.peekNorm k n = k + n) ∧
+    (∀ k n, Gen.Queue.peekOut k n = (decide (k < 0) || decide (k ≥ n))) ∧
+    (∀ head k cap, Gen.Queue.peekIdx head k cap = (head + k) % cap) ∧
+    -- Front, Each, Slice, IsEmpty
+    (∀ n, Gen.Queue.frontEmpty n = decide (n = 0)) ∧
+    (∀ cur cap, Gen.Queue.eachStep cur cap = (cur + 1) % cap) ∧
+    (∀ n, Gen.Queue.sliceEmpty n = decide (n = 0)) ∧
+    (∀ cur cap, Gen.Queue.sliceStep cur cap = (cur + 1) % cap) ∧
+    (∀ n, Gen.Queue.isEmptyTest n = decide (n = 0)) :=
+  ⟨rfl, fun _ _ => rfl, fun _ _ => rfl, fun _ _ => rfl, fun _ _ => rfl, fun _ => rfl, fun _ => rfl,
+   fun _ _ => rfl, fun _ => rfl, fun _ => rfl, fun _ => rfl, fun _ => rfl, fun _ => rfl, fun _ => rfl,
+   fun _ => rfl, fun _ => rfl, rfl, fun _ _ => rfl,
+   fun _ => rfl, fun _ _ => rfl, fun _ _ => rfl, fun _ _ => rfl, fun _ => rfl, rfl,
+   fun _ => rfl, fun _ _ => rfl, fun _ _ => rfl, fun _ _ _ => rfl,
+   fun _ => rfl, fun _ _ => rfl, fun _ => rfl, fun _ _ => rfl, fun _ => rfl⟩
 
 /-! non-vacuity: a concrete history that fills `NewSize 3` with the head in the middle and then
 grows from both ends (rotate-then-grow on `Add` and on `Push`) -/
